@@ -389,4 +389,7 @@ def run_scenario(scn: Dict[str, Any], on, plugins=()) -> Dict[str, Any]:
         return run_A(scn, on, plugins)
     if d == "B":
         return run_B(scn, on, plugins)
+    if d == "F":
+        from .driver_f import run_F
+        return run_F(scn, on, plugins)
     raise ValueError(d)
